@@ -332,3 +332,33 @@ impl BufRead for SplitBuf {
         self.pos = (self.pos + amt).min(self.data.len());
     }
 }
+
+/// Cloneable handle to a `RecWriter`, so the harness can look at the log between calls while a
+/// crate writer owns the other handle.
+#[derive(Clone, Debug, Default)]
+pub struct SharedWriter(pub std::rc::Rc<std::cell::RefCell<RecWriter>>);
+
+impl SharedWriter {
+    pub fn new(w: RecWriter) -> Self {
+        SharedWriter(std::rc::Rc::new(std::cell::RefCell::new(w)))
+    }
+    pub fn ops_len(&self) -> usize {
+        self.0.borrow().ops.len()
+    }
+    pub fn snapshot(&self) -> RecWriter {
+        self.0.borrow().clone()
+    }
+}
+impl Write for SharedWriter {
+    fn write(&mut self, buf: &[u8]) -> io::Result<usize> {
+        self.0.borrow_mut().write(buf)
+    }
+    fn flush(&mut self) -> io::Result<()> {
+        self.0.borrow_mut().flush()
+    }
+}
+impl Seek for SharedWriter {
+    fn seek(&mut self, s: SeekFrom) -> io::Result<u64> {
+        self.0.borrow_mut().seek(s)
+    }
+}
